@@ -83,6 +83,29 @@ def run(chk, prog):
         chk.finding("id-wrap", mf.key, "counter", "", "%s:%s" % (mf.file, mf.line),
                     "the fragment id counter is not advanced with wrapping arithmetic: the 65537th frame of a connection traps/changes behaviour")
 
+    # (3b) the expiry list stays sorted by deadline: entries are only appended at the back (deadline = now + timeout, monotone) and taken
+    # from the front; timer() relies on that order (partition_point).  Any other mutation of the deque can expire a frame early.
+    ALLOWED = re.compile(r"VecDeque::<T, A>::(push_back|pop_front|partition_point|front|len|is_empty|iter|new|with_capacity|drain|binary_search_by|binary_search_by_key)$|"
+                         r"Default::default$|clone::Clone::clone$")
+    nt = 0
+    for g in prog.fns.values():
+        if g.crate != "redproxy_rs" or not g.file.endswith("common/fragment.rs"):
+            continue
+        for c in g.calls:
+            if not c.args or "VecDeque" not in (c.path or ""):
+                continue
+            tr = str(g.trace(op_base(c.args[0]))) + str(c.args[0])
+            if "f:timer" not in tr:
+                continue
+            nt += 1
+            okc = ALLOWED.search(c.path or "") is not None
+            chk.instance("expiry", c.where(), "%s on the expiry list keeps it ordered by deadline" % short(c.path), okc, nontrivial=False)
+            if not okc:
+                chk.finding("expiry", g.key, "timer-order", short(c.path), c.where(),
+                            "%s mutates the expiry list with %s: timer() finds the expired prefix with partition_point and needs the list sorted "
+                            "by deadline, so a reordered list expires an incomplete frame before its timeout" % (g.path, short(c.path)))
+    chk.floor("expiry-list", nt, 2, "operations on the expiry list")
+
     # (4) expiry wiring
     tm = prog.one(r"^common::fragment::Fragments::<T>::timer$")
     pops = [c for c in tm.calls if re.search(r"VecDeque::<T, A>::pop_front$", c.path or "")]
